@@ -80,7 +80,8 @@ GoodAtoms(kind) ==
       [] kind = "string"  -> {"zero", "ascii", "esc", "ctrl", "nonbmp", "html"}
       [] kind = "key"     -> {"zero", "id62", "uuid"}
       [] kind = "bool"    -> {"false", "true"}
-      [] kind = "bytes"   -> {"zero", "len1", "len2", "len3", "len4"}
+      \* len257 / len1000: longer than any buffer an encoder might chunk by (256, 512); 257 = 1 mod 3, 1000 = 1 mod 3
+      [] kind = "bytes"   -> {"zero", "len1", "len2", "len3", "len4", "len257", "len1000"}
       [] kind = "timestamp" -> {"epoch", "nanos", "pre1970", "y0001", "y9999"}
       [] kind = "date"    -> {"d0001", "d0999", "leap", "leap400", "d9999"}      \* leap400: 2000-02-29 (a century that IS a leap year)
       [] kind = "decimal" -> {"zero", "neg", "big", "small", "exp", "int"}
